@@ -5,7 +5,7 @@
  * case) and as variant base for valgrind (uninitialised-value-dependent branches).
  *
  *   hz <state> <hex1> [<hex2> ...]
- *     state: fresh | obs | blk2 | blk1 | osc  hostile datagrams go to a server endpoint from the
+ *     state: fresh | obs | blk2 | blk1 | osc | qfresh | qb1 | qb2 (Q-Block enabled)  hostile datagrams go to a server endpoint from the
  *                                             peer that owns the ongoing observation / transfer
  *            client                           hostile datagrams go to a client session that has
  *                                             one Confirmable request outstanding
@@ -27,6 +27,7 @@ static size_t last_resp_tok_len = 0;
 static int last_resp_code = 0;
 static uint8_t big_body[3000];
 static unsigned obs_counter = 0;
+static size_t max_body = 0;     /* longest body handed to a request handler in this case */
 
 static void quiet_log(coap_log_t level, const char *message) { (void)level; (void)message; }
 
@@ -62,7 +63,7 @@ static void h_put(coap_resource_t *r, coap_session_t *s, const coap_pdu_t *req,
   const uint8_t *data;
   (void)r; (void)s; (void)q;
   n_handler++;
-  coap_get_data_large(req, &len, &data, &off, &total);
+  if (coap_get_data_large(req, &len, &data, &off, &total) && len > max_body) max_body = len;
   coap_pdu_set_code(resp, COAP_RESPONSE_CODE_CHANGED);
 }
 
@@ -82,7 +83,7 @@ static void h_nack(coap_session_t *s, const coap_pdu_t *sent, const coap_nack_re
   (void)s; (void)sent; (void)reason; (void)mid;
 }
 
-static coap_context_t *mk_server(coap_endpoint_t **ep, int with_oscore) {
+static coap_context_t *mk_server(coap_endpoint_t **ep, int with_oscore, int with_qblock) {
   coap_context_t *ctx = coap_new_context(NULL);
   coap_resource_t *r;
   if (!ctx) return NULL;
@@ -103,7 +104,8 @@ static coap_context_t *mk_server(coap_endpoint_t **ep, int with_oscore) {
       return NULL;
     }
   }
-  coap_context_set_block_mode(ctx, COAP_BLOCK_USE_LIBCOAP | COAP_BLOCK_SINGLE_BODY);
+  coap_context_set_block_mode(ctx, COAP_BLOCK_USE_LIBCOAP | COAP_BLOCK_SINGLE_BODY |
+                              (with_qblock ? COAP_BLOCK_TRY_Q_BLOCK : 0));
   *ep = vn_new_server_ep(ctx);
   r = coap_resource_init(coap_make_str_const("canary"), 0);
   coap_register_request_handler(r, COAP_REQUEST_GET, h_canary);
@@ -163,7 +165,7 @@ static int canary_from(coap_context_t *srv, coap_endpoint_t *ep, const coap_addr
 
 static void server_case(const char *state) {
   coap_endpoint_t *ep = NULL;
-  coap_context_t *srv = mk_server(&ep, !strcmp(state, "osc"));
+  coap_context_t *srv = mk_server(&ep, !strcmp(state, "osc"), state[0] == 'q');
   coap_address_t peer, peer2;
   const char *why = "";
   if (!srv || !ep) { puts("SETUPFAIL"); return; }
@@ -190,6 +192,19 @@ static void server_case(const char *state) {
     for (int i = 0; i < 64; i++) msg[14 + i] = (uint8_t)i;
     vn_inject_ep(srv, ep, &peer, NULL, msg, sizeof(msg));
   }
+  else if (!strcmp(state, "qb1")) {
+    /* RFC 9177: NON PUT /put, Q-Block1 (19) NUM 0 M=1 SZX 2, 64 bytes */
+    uint8_t msg[13 + 64] = {0x52, 0x03, 0x10, 0x05, 0xe1, 0xe2, 0xb3, 'p', 'u', 't', 0x81, 0x0a,
+                            0xff};
+    size_t n = 13;
+    for (int i = 0; i < 64; i++) msg[n++] = (uint8_t)(i + 1);
+    vn_inject_ep(srv, ep, &peer, NULL, msg, n);
+  } else if (!strcmp(state, "qb2")) {
+    /* NON GET /big with Q-Block2 NUM 0 M=1 SZX 2: the server sends a burst of blocks */
+    static const uint8_t get[] = {0x52, 0x01, 0x10, 0x06, 0xd1, 0xd2, 0xb3, 'b', 'i', 'g',
+                                  0xd1, 0x07, 0x0a};
+    vn_inject_ep(srv, ep, &peer, NULL, get, sizeof(get));
+  }
   int setup_handlers = n_handler;
   (void)setup_handlers;
   for (int i = 2; i < vntok; i++) {
@@ -214,6 +229,8 @@ static void server_case(const char *state) {
     ok = canary_from(srv, ep, &peer, 0x7003, 0x73, &why) &&
          canary_from(srv, ep, &peer2, 0x7004, 0x74, &why);
   }
+  printf("maxbody=%zu ", max_body);
+  max_body = 0;
   if (ok) puts("canary=ok");
   else printf("canary=BAD(%s)\n", why);
   coap_free_context(srv);
@@ -221,7 +238,7 @@ static void server_case(const char *state) {
   vn_log_reset();
 }
 
-static void client_case(void) {
+static void client_case(const char *state) {
   coap_context_t *cli = coap_new_context(NULL);
   coap_address_t server;
   const char *why = "";
@@ -233,12 +250,41 @@ static void client_case(void) {
   vn_addr4(&server, VN_LOOPBACK, 5683);
   coap_session_t *s = vn_new_client(cli, &server);
   if (!s) { puts("SETUPFAIL"); coap_free_context(cli); return; }
+  /* cq2: as after a successful Q-Block probe (the probe itself makes coap_send() wait in real
+   * I/O for its answer, which a scripted network cannot give from inside that call) */
+  if (!strcmp(state, "cq2")) s->block_mode |= COAP_BLOCK_HAS_Q_BLOCK;
   /* the outstanding request: CON GET /x with a fixed token */
   coap_pdu_t *p = coap_new_pdu(COAP_MESSAGE_CON, COAP_REQUEST_CODE_GET, s);
   static const uint8_t tok[] = {0x11, 0x22};
   coap_add_token(p, 2, tok);
+  if (!strcmp(state, "cobs")) coap_add_option(p, COAP_OPTION_OBSERVE, 0, NULL);
   coap_add_option(p, COAP_OPTION_URI_PATH, 1, (const uint8_t *)"x");
-  coap_send(s, p);
+  {
+    size_t o_req = vn_nout;
+    coap_send(s, p);
+    if (strcmp(state, "client") && vn_nout > o_req && vn_out[o_req].len >= 4) {
+      const vn_dgram_t *rq = &vn_out[o_req];
+      if (!strcmp(state, "cblk2")) {
+        /* first block of a block-wise response: ACK 2.05, Block2 (23 = 13 + 10) NUM 0 M=1
+         * SZX 2, 64 bytes */
+        uint8_t m[10 + 64] = {0x62, 0x45, rq->data[2], rq->data[3], 0x11, 0x22, 0xd1, 0x0a, 0x0a,
+                              0xff};
+        for (int i = 0; i < 64; i++) m[10 + i] = (uint8_t)(i + 3);
+        vn_inject_session(cli, s, m, sizeof(m));
+      } else if (!strcmp(state, "cq2")) {
+        /* first block of a Q-Block2 burst: NON 2.05, Q-Block2 (31 = 13 + 18) NUM 0 M=1 SZX 2 */
+        uint8_t m[10 + 64] = {0x52, 0x45, 0x33, 0x01, 0x11, 0x22, 0xd1, 0x12, 0x0a, 0xff};
+        for (int i = 0; i < 64; i++) m[10 + i] = (uint8_t)(i + 5);
+        vn_inject_session(cli, s, m, 10 + 64);
+      } else if (!strcmp(state, "cobs")) {
+        /* registration accepted: ACK 2.05 with Observe 5 */
+        uint8_t m[] = {0x62, 0x45, rq->data[2], rq->data[3], 0x11, 0x22, 0x61, 0x05, 0xff, 'v'};
+        vn_inject_session(cli, s, m, sizeof(m));
+      }
+      vn_advance(10);
+      vn_prepare(cli);
+    }
+  }
   for (int i = 2; i < vntok; i++) {
     size_t n;
     uint8_t *b = bytes_of_tok(vtok[i], &n);
@@ -300,7 +346,7 @@ int main(void) {
     if (vntok < 2 || strcmp(vtok[0], "hz")) { puts("ERROR"); fflush(stdout); continue; }
     vn_prng_seed(11);
     vn_now = 1000;
-    if (!strcmp(vtok[1], "client")) client_case();
+    if (vtok[1][0] == 'c') client_case(vtok[1]);
     else server_case(vtok[1]);
     fflush(stdout);
   }
